@@ -20,3 +20,18 @@ Theorem c03_wf_history : forall pr sys ops s, uniq (files s) -> WF pr sys s ->
   WF pr sys (run pr s ops) /\ uniq (files (run pr s ops)).
 Proof. exact WF_history. Qed.
 Print Assumptions c03_wf_history.
+
+(* ---------- the concrete ProDOS file structure: one owner per block ---------- *)
+From A2 Require Import Fs.ProdosTree Fs.ProdosTreeProofs.
+
+(* the data blocks, the index blocks and the master block of a file are pairwise different, come from the free list and are never
+   block 0 - whatever the hole pattern (the index block can in particular never be one of its own entries) *)
+Theorem c03_prodos_blocks_distinct : forall cs free, NoDup free -> (length (events cs) <= length free)%nat ->
+  forall e1 e2, In e1 (events cs) -> In e2 (events cs) -> block_of e1 (events cs) free = block_of e2 (events cs) free -> e1 = e2.
+Proof. intros cs free Hn Hl. exact (pd_blocks_distinct cs free Hn Hl). Qed.
+Print Assumptions c03_prodos_blocks_distinct.
+
+Theorem c03_prodos_blocks_from_free : forall cs free, ~ In 0 free -> (length (events cs) <= length free)%nat ->
+  forall e, In e (events cs) -> In (block_of e (events cs) free) free /\ block_of e (events cs) free <> 0.
+Proof. intros cs free Hz Hl. exact (pd_blocks_from_free cs free Hz Hl). Qed.
+Print Assumptions c03_prodos_blocks_from_free.
